@@ -3525,10 +3525,14 @@ class SEVM:
                                 "is assumed to have empty bytecode"
                             )
 
-                        account_code: Contract | ByteVec = (
-                            ex.code.get(account_alias) or ByteVec()
+                        # note: Contract.slice() takes (start, size),
+                        # whereas ByteVec.slice() takes (start, stop)
+                        account_code: Contract | None = ex.code.get(account_alias)
+                        codeslice: ByteVec = (
+                            account_code.slice(offset, size)
+                            if account_code
+                            else ByteVec().slice(0, size)
                         )
-                        codeslice: ByteVec = account_code.slice(offset, size)
                         state.set_mslice(loc, codeslice)
 
                 elif opcode == OP_EXTCODEHASH:
